@@ -231,13 +231,18 @@ def run(chk):
     chk.proof_gate()
     run_pip(chk, drv, model)
     run_cli(chk, model)
+    # the file-system side: LocalFileSystem::remove / rm_tree against the system-call-level model Path/FsRemove.v (chroot sandbox)
+    from props import c14fs
+    c14fs.run_fs(chk)
     chk.assumptions = ["POSIX path separators only ('/'); the Windows separator set is not modelled",
-                       "FileSystem::remove is recursive (exercised on the real file system, not modelled)",
+                       "file system model (Path/FsRemove.v): regular files, directories and symbolic links only; permissions not modelled (the harness runs as root); "
+                       "the process working directory is the tree root; readdir order is an input of the model",
                        "model tied to the code by differential execution (exhaustive over a small alphabet, sampled beyond)"]
     return chk.finish(level="proof",
                       rule="pip: every pair of strings over the path alphabet up to length 5 plus structured random pairs; non-trivial = pairs on which the implementation answers true. "
+                           "fs: generated trees with symbolic links x every path: model remove == LocalFileSystem::remove (result tree and errno) and a model-independent before/after oracle. "
                            "cli: random histories of (expectedOutputs, roots) lists run through `llbuild buildsystem build` in fresh processes over one database; non-trivial = runs that delete something; distinct by (deleted set, roots)",
-                      trusted=["hand-written model coq/Path/PathPrefix.v, tied by correspondence only", "harness/cpp/leaf_driver.cpp", "extraction (ExtrOcamlBasic) + ocaml/vmodel.ml"])
+                      trusted=["hand-written models coq/Path/PathPrefix.v and coq/Path/FsRemove.v, tied by correspondence only", "harness/cpp/leaf_driver.cpp", "harness/cpp/fsrm_driver.cpp (chroot sandbox)", "extraction (ExtrOcamlBasic) + ocaml/vmodel.ml"])
 
 def replay(chk, rp):
     print(json.dumps(rp, indent=1))
